@@ -65,22 +65,22 @@ type PlanEntry struct {
 
 // Plans lists, per property, the profiles its history check explores.
 var Plans = map[string][]PlanEntry{
-	"C01": {{"reaper", 260, 6000, ""}, {"general", 60, 1500, ""}, {"cordon", 40, 800, ""}, {"external", 20, 400, ""}},
-	"C02": {{"lock", 280, 6000, ""}, {"general", 60, 1500, ""}, {"fleet", 40, 800, ""}},
-	"C03": {{"scaledown", 260, 6000, ""}, {"general", 60, 1500, ""}, {"cordon", 40, 800, ""}},
-	"C04": {{"scaleup", 260, 6000, ""}, {"general", 60, 1500, ""}, {"fleet", 40, 800, ""}, {"fromzero", 30, 600, ""}},
-	"C05": {{"scaleup", 200, 5000, ""}, {"fromzero", 80, 1500, ""}, {"general", 40, 1000, ""}},
-	"C06": {{"scaledown", 200, 5000, ""}, {"scaleup", 100, 2500, ""}, {"general", 80, 2000, ""}, {"fromzero", 20, 500, ""}},
-	"C07": {{"scaleup", 260, 6000, ""}, {"general", 60, 1500, ""}, {"lock", 40, 800, ""}, {"taints", 30, 600, ""}},
-	"C08": {{"scaledown", 280, 6000, ""}, {"general", 60, 1500, ""}, {"taints", 40, 800, ""}},
-	"C09": {{"cordon", 280, 6000, ""}, {"general", 60, 1500, ""}, {"reaper", 40, 800, ""}},
-	"C10": {{"reaper", 280, 6000, ""}, {"general", 60, 1500, ""}, {"cordon", 40, 800, ""}},
-	"C11": {{"dry", 260, 5000, ""}, {"dry", 60, 1200, "c11"}, {"general", 30, 600, ""}},
-	"C12": {{"multi", 120, 2500, ""}, {"multi", 120, 2500, "c12"}, {"general", 60, 1200, ""}},
-	"C13": {{"general", 120, 2500, ""}, {"scaledown", 60, 1200, ""}},
-	"C15": {{"taints", 260, 6000, ""}, {"general", 60, 1500, ""}, {"scaledown", 40, 800, ""}},
-	"C19": {{"reaper", 160, 4000, ""}, {"external", 100, 2000, ""}, {"general", 60, 1500, ""}, {"faults", 60, 1500, ""}},
-	"C20": {{"faults", 300, 7000, ""}, {"general", 80, 2000, ""}, {"fleet", 40, 800, ""}, {"external", 20, 400, ""}},
+	"C01": {{"reaper", 2080, 96000, ""}, {"general", 480, 24000, ""}, {"cordon", 320, 12800, ""}, {"external", 160, 6400, ""}},
+	"C02": {{"lock", 2240, 96000, ""}, {"general", 480, 24000, ""}, {"fleet", 320, 12800, ""}},
+	"C03": {{"scaledown", 2080, 96000, ""}, {"general", 480, 24000, ""}, {"cordon", 320, 12800, ""}},
+	"C04": {{"scaleup", 2080, 96000, ""}, {"general", 480, 24000, ""}, {"fleet", 320, 12800, ""}, {"fromzero", 240, 9600, ""}},
+	"C05": {{"scaleup", 1600, 80000, ""}, {"fromzero", 640, 24000, ""}, {"general", 320, 16000, ""}},
+	"C06": {{"scaledown", 1600, 80000, ""}, {"scaleup", 800, 40000, ""}, {"general", 640, 32000, ""}, {"fromzero", 160, 8000, ""}},
+	"C07": {{"scaleup", 2080, 96000, ""}, {"general", 480, 24000, ""}, {"lock", 320, 12800, ""}, {"taints", 240, 9600, ""}},
+	"C08": {{"scaledown", 2240, 96000, ""}, {"general", 480, 24000, ""}, {"taints", 320, 12800, ""}},
+	"C09": {{"cordon", 2240, 96000, ""}, {"general", 480, 24000, ""}, {"reaper", 320, 12800, ""}},
+	"C10": {{"reaper", 2240, 96000, ""}, {"general", 480, 24000, ""}, {"cordon", 320, 12800, ""}},
+	"C11": {{"dry", 2080, 80000, ""}, {"dry", 480, 19200, "c11"}, {"general", 240, 9600, ""}},
+	"C12": {{"multi", 960, 40000, ""}, {"multi", 960, 40000, "c12"}, {"general", 480, 19200, ""}},
+	"C13": {{"general", 960, 40000, ""}, {"scaledown", 480, 19200, ""}},
+	"C15": {{"taints", 2080, 96000, ""}, {"general", 480, 24000, ""}, {"scaledown", 320, 12800, ""}},
+	"C19": {{"reaper", 1280, 64000, ""}, {"external", 800, 32000, ""}, {"general", 480, 24000, ""}, {"faults", 480, 24000, ""}},
+	"C20": {{"faults", 2400, 112000, ""}, {"general", 640, 32000, ""}, {"fleet", 320, 12800, ""}, {"external", 160, 6400, ""}},
 }
 
 // Cases expands a property's plan into the fixed, seed-determined case list of a tier.
